@@ -36,10 +36,16 @@ OBLIGATIONS = [
         desc="BucketReader.read / get_length -> ShareFile.__init__/read_share_data on an arbitrary stored share (0..2 leases): bytes "
              "[offset, min(offset+length, data length)), nothing from the lease area, empty beyond the end, no write"),
     chx("lifecycle", "C22_h", "h_lifecycle", bounds=BD, timeout=T,
-        cases=[{"ev1": i, "_label": n} for i, n in enumerate(("close", "abort", "timeout", "disconnect"))],
+        cases=[{"ev1": 0, "other": False, "_label": "close-alone"}, {"ev1": 0, "other": True, "_label": "close-other"},
+               {"ev1": 1, "_label": "abort"}, {"ev1": 2, "_label": "timeout"}, {"ev1": 3, "_label": "disconnect"}],
         desc="StorageServer.allocate_buckets -> BucketWriter -> close / abort / _abort_due_to_timeout / disconnected (then a second "
              "arbitrary event), StorageServer.get_shares/get_buckets/bucket_writer_closed/allocated_size: the share is invisible to "
              "get_buckets until close; after close it is visible with the allocated length and the written bytes; after "
              "abort/timeout/disconnect no share and no incoming file remain (another upload's incoming file is kept); in all cases "
              "the close handlers run exactly once, the reservation is released, the timer is no longer pending"),
+    chx("foolscap_disconnect", "C22_h", "h_foolscap_disconnect", bounds=BD, timeout=T,
+        desc="FoolscapStorageServer.remote_allocate_buckets with 2..3 shares in ONE call and a recording canary, one writer written to "
+             "and possibly closed / aborted first (FoolscapBucketWriter.remote_write/close/abort), then every registered disconnect "
+             "callback fires: every still-open upload of that call is aborted (no incoming file, no share, no reservation, no entry in "
+             "_bucket_writers, no pending timer); only a share closed before the disconnect stays visible"),
 ]
